@@ -275,7 +275,7 @@ def coq_bool(b):
     return "true" if b else "false"
 
 
-def coq_run_cases(name, imports, run_fn, case_terms, ty="list Z", shard=400, timeout=900, jobs=8):
+def coq_run_cases(name, imports, run_fn, case_terms, ty="list Z", shard=400, timeout=900, jobs=8, case_ty=None):
     """Evaluate `run_fn case` inside Coq for every case term; returns list of parsed results
     (each a nested int list) or raises RuntimeError with the Coq output."""
     from concurrent.futures import ThreadPoolExecutor
@@ -284,7 +284,7 @@ def coq_run_cases(name, imports, run_fn, case_terms, ty="list Z", shard=400, tim
     def one(k_terms):
         k, terms = k_terms
         txt = [imports, "Set Printing Depth 10000000.", "Set Printing Width 200.", "Open Scope Z_scope.",
-               "Definition cases_%d := [" % k]
+               ("Definition cases_%d : list (%s) := [" % (k, case_ty)) if case_ty else ("Definition cases_%d := [" % k)]
         txt.append(";\n".join("(" + t + ")" for t in terms))
         txt.append("].")
         txt.append("Definition out_%d := Eval vm_compute in (List.map (%s) cases_%d)." % (k, run_fn, k))
